@@ -146,7 +146,7 @@ struct Ctx {
   std::string outdir; int nshards=16; uint64_t seed=1; bool thorough=false;
   std::vector<FILE*> shards; size_t rr=0; std::string stream;
   FILE* viol=nullptr; char* cur=nullptr; size_t curcap=1<<16;
-  bool pair=false; std::vector<std::string>* capture=nullptr;   // C19: pair mode, see AW() below
+  bool pair=false; unsigned long aw_calls=0; std::vector<std::string>* capture=nullptr;   // C19: pair mode, see AW() below
   long long evaluations=0, events=0, violations=0; std::unordered_set<uint64_t> distinct; std::vector<std::string> samples;
   void open(const std::string&dir,const std::string&name,int n);
   void set_case(const std::string&s){ if(cur){ size_t k=std::min(s.size(),curcap-1); memcpy(cur,s.data(),k); cur[k]=0; } }
@@ -163,7 +163,9 @@ extern Ctx g;
 // emitted next to the i-th event of the wide run as one Pair event; Trace_Pair requires them to be the same record (field "w" apart).
 // `narrow` = the case is representable in both character types (otherwise only the wide variant runs and nothing is paired).
 template<class FA,class FW> inline void AW(bool narrow,bool pickA,FA fa,FW fw,size_t shard=(size_t)-1){
-  if(!g.pair||!narrow){ if(narrow&&pickA) fa(); else fw(); return; }
+  // which of the two runs follows the Thue-Morse sequence of a call counter, NOT the caller's loop index: an index parity is aligned with
+  // whatever two-valued parameter the innermost loop enumerates (option, owned/borrowed, mode), which would pin that parameter to one type
+  if(!g.pair||!narrow){ (void)pickA; bool a=__builtin_popcountl(g.aw_calls++)&1; if(narrow&&a) fa(); else fw(); return; }
   std::vector<std::string> ea,ew; g.capture=&ea; fa(); g.capture=&ew; fw(); g.capture=nullptr; size_t n=std::max(ea.size(),ew.size());
   for(size_t i=0;i<n;++i){ std::string j="{\"e\":\"Pair\",\"i\":"+std::to_string(i); if(i<ea.size()) j+=",\"a\":"+ea[i]; if(i<ew.size()) j+=",\"w\":"+ew[i]; j+="}"; if(shard==(size_t)-1) g.event(j); else g.event_to(shard,j); } }
 
